@@ -131,6 +131,14 @@ def analyse_listing(repo: Repo, run: Run, interp, name: str):
             continue
         fnt = s.fn
         body = pipeline.predicate_body(fnt)
+        if body is None and fnt.op == "attr" and fnt.a[0] == SELF and fnt.a[1] in ci.methods:
+            # a bound method used as the predicate: its body with the element as its argument
+            mfn = ci.methods[fnt.a[1]]
+            if len(mfn.args.args) == 2:
+                mrec = interp.run(ci.module, mfn, {mfn.args.args[1].arg: T("bound", ("elem", 0))}, self_cls=ci)
+                if not mrec.notes:
+                    body = mrec.return_term()
+                    relevant.extend(e for e in mrec.effects if sym.root_of(e.path if e.path is not None else e.base) == SELF)
         if body is None:
             raise AnalysisError(f"{name}: predicate is not a lambda / inlinable method: {sym.pretty(fnt)[:80]}")
         nb = N(body)
@@ -191,6 +199,14 @@ def _unwrap_seq(t: T) -> T:
 def analyse_cli(repo: Repo, run: Run, interp) -> int:
     main = repo.module("__main__")
     n = 0
+    # the value each filter attribute has when no option touches it (PyKdebugParser.__init__)
+    ci = repo.module(MOD.split(".", 1)[1]).classes["PyKdebugParser"] if "." in MOD else None
+    init_defaults = {}
+    if ci is not None and "__init__" in ci.methods:
+        irec = interp.run(ci.module, ci.methods["__init__"], self_cls=ci)
+        for e in irec.effects:
+            if e.kind == "attr-store" and not e.pc and e.value.op == "const":
+                init_defaults[e.key] = e.value
     for cmd, listing in CLI_LISTING.items():
         fn = main.functions.get(cmd)
         if fn is None:
@@ -217,7 +233,8 @@ def analyse_cli(repo: Repo, run: Run, interp) -> int:
                 for x in es:
                     src = _unwrap_seq(x.value)
                     want = [k for k, v in CLI_WIRING.items() if v == attr]
-                    ok = src.op == "param" and src.a[0] in want
+                    ok = (src.op == "param" and src.a[0] in want) or \
+                         (not any(w in params for w in want) and attr in init_defaults and src == init_defaults[attr])
                     run.ob("R4", "pykdebugparser.__main__", cmd, f"parser.{attr} source", ok,
                            "" if ok else f"command {cmd!r} stores {sym.pretty(x.value)} into parser.{attr}",
                            nontrivial=False, line=x.lineno)
